@@ -755,11 +755,15 @@ structure Short where
 def Short.isEmpty (s : Short) : Bool :=
   s.frequency.isNone && s.block.isNone && s.connection.isNone && s.generator.isNone
 
+/-- `'%2d' % frequency` when the entry is present and true, else nothing -/
+def shortFreqText (s : Short) : Except Exc Str :=
+  match s.frequency with
+  | some v => if v.truthy then fmtVal { raw := ['2'], width := 2, left := false, prec := none, typ := 'd' } v else .ok []
+  | none => .ok []
+
 def writeShort (s : Short) : Except Exc (List Str) :=
   if s.isEmpty then .ok [] else do
-    let f ← match s.frequency with
-      | some v => if v.truthy then fmtVal { raw := ['2'], width := 2, left := false, prec := none, typ := 'd' } v else pure []
-      | none => pure []
+    let f ← shortFreqText s
     let b := match s.block with
       | some ns => nl (c!"ELEME") :: ns.map (fun n => nl (unfixBlockname n))
       | none => []
@@ -788,40 +792,52 @@ def readShortItems {α} (item : Str → Except Exc (Option α)) : List Str → E
         | .error e => .error e
         | .ok (as, nxt, r) => .ok ((match a with | some x => x :: as | none => as), nxt, r)
 
+/-- one line of SHORT's ELEME list: a block of the grid, or nothing -/
+def shortBlockItem (blocks : List Block) (l : Str) : Except Exc (Option Str) := do
+  let n ← fixBlockname (slice l 0 5)
+  pure (if blocks.any (·.name == n) then some n else none)
+
+/-- one line of SHORT's CONNE list -/
+def shortConnItem (conns : List Conn) (l : Str) : Except Exc (Option (Str × Str)) := do
+  let n1 ← fixBlockname (slice l 0 5)
+  let n2 ← fixBlockname (slice l 5 10)
+  pure (if conns.any (fun c => c.b1 == n1 && c.b2 == n2) then some (n1, n2) else none)
+
+/-- one line of SHORT's GENER list -/
+def shortGenItem (gens : List Gener) (l : Str) : Except Exc (Option (Str × Str)) := do
+  let n1 ← fixBlockname (slice l 0 5)
+  let n2 ← fixBlockname (slice l 5 10)
+  pure (if gens.any (fun g => g.block == n1 && g.name == n2) then some (n1, n2) else none)
+
+/-- the sub-section loop of `read_short_output` -/
+def shortLoop (blocks : List Block) (conns : List Conn) (gens : List Gener) :
+    Nat → Short → Str → List Str → Except Exc (Short × List Str)
+  | 0, _, _, _ => .error .generic
+  | fuel + 1, s, line, rest =>
+    if isBlank line then .ok (s, rest)
+    else
+      let kw := slice line 0 5
+      if kw == c!"ELEME" then
+        match readShortItems (shortBlockItem blocks) rest with
+        | .error e => .error e
+        | .ok (items, nxt, r) => shortLoop blocks conns gens fuel { s with block := some items } nxt r
+      else if kw == c!"CONNE" then
+        match readShortItems (shortConnItem conns) rest with
+        | .error e => .error e
+        | .ok (items, nxt, r) => shortLoop blocks conns gens fuel { s with connection := some items } nxt r
+      else if kw == c!"GENER" then
+        match readShortItems (shortGenItem gens) rest with
+        | .error e => .error e
+        | .ok (items, nxt, r) => shortLoop blocks conns gens fuel { s with generator := some items } nxt r
+      else .error .keyError
+
 /-- `read_short_output(infile, headerline)` -/
 def readShort (rf : ReadFn) (T : Tabs) (blocks : List Block) (conns : List Conn) (gens : List Gener)
     (s0 : Short) (header : Str) (ls : List Str) : Except Exc (Short × List Str) := do
   let vals ← readValues rf (← T.get c!"short") header
   let s := if vals.length > 1 then { s0 with frequency := some (vals.getD 1 .none) } else s0
-  let rec loop : Nat → Short → Str → List Str → Except Exc (Short × List Str)
-    | 0, _, _, _ => .error .generic
-    | fuel + 1, s, line, rest =>
-      if isBlank line then .ok (s, rest)
-      else
-        let kw := slice line 0 5
-        if kw == c!"ELEME" then
-          match readShortItems (fun l => do
-              let n ← fixBlockname (slice l 0 5)
-              pure (if blocks.any (·.name == n) then some n else none)) rest with
-          | .error e => .error e
-          | .ok (items, nxt, r) => loop fuel { s with block := some items } nxt r
-        else if kw == c!"CONNE" then
-          match readShortItems (fun l => do
-              let n1 ← fixBlockname (slice l 0 5)
-              let n2 ← fixBlockname (slice l 5 10)
-              pure (if conns.any (fun c => c.b1 == n1 && c.b2 == n2) then some (n1, n2) else none)) rest with
-          | .error e => .error e
-          | .ok (items, nxt, r) => loop fuel { s with connection := some items } nxt r
-        else if kw == c!"GENER" then
-          match readShortItems (fun l => do
-              let n1 ← fixBlockname (slice l 0 5)
-              let n2 ← fixBlockname (slice l 5 10)
-              pure (if gens.any (fun g => g.block == n1 && g.name == n2) then some (n1, n2) else none)) rest with
-          | .error e => .error e
-          | .ok (items, nxt, r) => loop fuel { s with generator := some items } nxt r
-        else .error .keyError
   let (l1, rest) := readline ls
-  loop (ls.length + 2) s l1 rest
+  shortLoop blocks conns gens (ls.length + 2) s l1 rest
 
 /-! ### MESHMAKER -/
 
